@@ -1,6 +1,7 @@
 import GqlProofs.Grammar.Sound
 import GqlProofs.Grammar.Reject
 import GqlProofs.Grammar.ParserFacts
+import GqlProofs.Grammar.PrintSchema
 /-
   C06 — the schema parser accepts exactly the type-system grammar, faithfully.
 
@@ -10,7 +11,7 @@ import GqlProofs.Grammar.ParserFacts
   (`parseSchemaSrc`, `parseSchemas`: ops `ps` / `pss`): the built-in flag and the merge.
   The tie to the real parser is the check `C06` (harness/internal/props/grammarcheck.go).
 -/
-open Gql Gql.Lexer Gql.Grammar Gql.Parser
+open Gql Gql.Lexer Gql.Grammar Gql.Parser Gql.Print
 
 /-! ### the recogniser is sound -/
 
@@ -118,6 +119,32 @@ theorem C06_reject_classes_operation_type (ts out : List Tok) (h : Derives gql (
     · exact Or.inr (Or.inl (key _ _ _ h))
     · exact Or.inr (Or.inr (key _ _ _ h))
 
+/-! ### the unparser stays inside the grammar -/
+
+/-- The print of every well-formed type-system tree (`Print.WFSchema`: at least one definition;
+    schema definitions list at least one operation type and only `query`/`mutation`/`subscription`;
+    every extension extends something (`Print.ExtendsSomething`); directive definitions have at
+    least one location, all among the 19 names; enum values are not `true`/`false`/`null`; all
+    directives and default values are constant) is a sentence of the type-system grammar. -/
+theorem C06_print_in_grammar (d : SchemaDoc) (h : WFSchema d) :
+    Derivable gql .typeSystemDocument (printSchema d) :=
+  printSchema_in_grammar d h
+
+/-- non-vacuity: `scalar S  extend scalar S @d` is well-formed -/
+example : WFSchema
+    { schema := [], schemaExt := [], directives := [],
+      definitions := [{ kind := .scalar, desc := [], name := str "S", dirs := [], interfaces := [], fields := [],
+                        types := [], enumValues := [], pos := Pos.zero, builtIn := false }],
+      extensions := [{ kind := .scalar, desc := [], name := str "S",
+                       dirs := [{ name := str "d", args := [], pos := Pos.zero }], interfaces := [], fields := [],
+                       types := [], enumValues := [], pos := Pos.zero, builtIn := false }] } := by
+  refine ⟨by simp, by simp, by simp, by simp, ?_, ?_⟩
+  · intro x hx; simp only [List.mem_singleton] at hx; subst hx
+    exact ⟨by intro d hd; simp at hd, trivial⟩
+  · intro x hx; simp only [List.mem_singleton] at hx; subst hx
+    refine ⟨⟨?_, trivial⟩, by simp [ExtendsSomething]⟩
+    intro d hd; simp only [List.mem_singleton] at hd; subst hd; intro a ha; simp at ha
+
 /-! ### the parser model: built-in flag and merge -/
 
 /-- `ParseSchema(src)` marks every definition and extension with the source's `BuiltIn` flag -/
@@ -147,6 +174,7 @@ theorem C06_merge_is_concat (limit : Nat) (srcs : List (Bool × Bytes)) (d : Sch
   exact ⟨ds, hp, by simpa [SchemaDoc.empty] using h1, by simpa [SchemaDoc.empty] using h2,
     by simpa [SchemaDoc.empty] using h3, by simpa [SchemaDoc.empty] using h4, by simpa [SchemaDoc.empty] using h5⟩
 
+#print axioms C06_print_in_grammar
 #print axioms C06_recognise_sound
 #print axioms C06_canonical_sound
 #print axioms C06_reject_classes_empty_document
